@@ -4,7 +4,7 @@ PID=$1; WT=$2; shift 2
 for M in "$@"; do
   cd $WT && git checkout -q -- . && git apply out/$M/patch.diff || { echo "CONFIRM $PID $M apply-failed"; continue; }
   flock /tmp/seed/suite.lock env PYTHONPATH=$WT OMP_NUM_THREADS=1 /venv/bin/python -m pytest -q -p no:cacheprovider --timeout=900 --continue-on-collection-errors -n 8 --dist loadfile --junitxml=/tmp/seed/confirm_${PID}_$M.xml > /tmp/seed/confirm_${PID}_$M.log 2>&1
-  r=$(/venv/bin/python /tmp/seedtools/compare_baseline.py /tmp/seed/confirm_${PID}_$M.xml | head -1)
+  r=$(/venv/bin/python /tmp/seedtools/compare_baseline.py /tmp/seed/confirm_${PID}_$M.xml | head -4 | tr '\n' ' ')
   git checkout -q -- .
   echo "CONFIRM $PID $M $r" | tee -a /tmp/seed/confirm_summary.txt
   rm -f /tmp/seed/confirm_${PID}_$M.xml /tmp/seed/confirm_${PID}_$M.log
